@@ -126,16 +126,20 @@ fn reference_fwd(h: &HP, c: &Coor4D) -> [f64; 3] {
     [ss * c.0[0] + tt[0], ss * c.0[1] + tt[1], ss * c.0[2] + tt[2]]
 }
 
+fn tiny3() -> [f64; 3] {
+    [tiny_f(), tiny_f(), tiny_f()]
+}
+
 fn unrotated_hp() -> HP {
     HP {
-        t: small3(), dt: small3(), r: [0.; 3], dr: [0.; 3],
+        t: tiny3(), dt: tiny3(), r: [0.; 3], dr: [0.; 3],
         rot: [1., 0., 0., 0., 1., 0., 0., 0., 1.],
-        s: small_f(), ds: small_f(), epoch: small_f(),
+        s: tiny_f(), ds: tiny_f(), epoch: tiny_f(),
         rotated: false, dynamic: nd(), fixed: nd(), exact: false, pv: true,
     }
 }
 
-// @harness c07_epochs_per_tuple prop=C07 tier=quick cap=900 stubs="M-BTREE, S-ACC(ParsedParameters::boolean)" bound="translation+scale+rates in D-SMALL, 3 tuples with arbitrary epochs in D-SMALL (a,b,a' incl. equal epochs), dynamic/fixed flags symbolic: every output tuple == T+(t-t_epoch)*DT, S+(t-t_epoch)*DS applied to that tuple alone"
+// @harness c07_epochs_per_tuple prop=C07 tier=quick cap=900 stubs="M-BTREE, S-ACC(ParsedParameters::boolean)" bound="translation+scale+rates in D-TINY={0..3}, 3 tuples with arbitrary epochs in D-TINY (a,b,a' incl. equal epochs), dynamic/fixed flags symbolic: every output tuple == T+(t-t_epoch)*DT, S+(t-t_epoch)*DS applied to that tuple alone"
 #[kani::proof]
 #[kani::stub(ParsedParameters::boolean, acc_boolean)]
 #[kani::unwind(18)]
@@ -143,9 +147,9 @@ fn c07_epochs_per_tuple() {
     let h = unrotated_hp();
     let op = helmert_op(&h);
     let ctx = NullCtx;
-    let a = small_c4();
-    let b = small_c4();
-    let c = small_c4();
+    let a = tiny_c4();
+    let b = tiny_c4();
+    let c = tiny_c4();
     let mut data = [a, b, c];
     let n = helmert_common(&op, &ctx, &mut data, Direction::Fwd);
     assert!(n == 3);
@@ -159,7 +163,7 @@ fn c07_epochs_per_tuple() {
     kani::cover!(h.dynamic && !h.fixed && a.0[3] != b.0[3]);
 }
 
-// @harness c07_inverse_undoes_forward prop=C07 tier=quick cap=900 stubs="M-BTREE, S-ACC(ParsedParameters::boolean)" bound="unrotated, parameters and one tuple in D-SMALL, scale != 0: inv(fwd(x)) == x to 1e-9 relative (per-tuple epochs)"
+// @harness c07_inverse_undoes_forward prop=C07 tier=quick cap=900 stubs="M-BTREE, S-ACC(ParsedParameters::boolean)" bound="unrotated, parameters and one tuple in D-TINY={0..3}, scale != 0: inv(fwd(x)) == x to 1e-9 relative (per-tuple epochs)"
 #[kani::proof]
 #[kani::stub(ParsedParameters::boolean, acc_boolean)]
 #[kani::unwind(18)]
@@ -167,7 +171,7 @@ fn c07_inverse_undoes_forward() {
     let h = unrotated_hp();
     let op = helmert_op(&h);
     let ctx = NullCtx;
-    let a = small_c4();
+    let a = tiny_c4();
     // effective scale at this tuple's epoch must not vanish
     let ss = if h.dynamic && !h.fixed { h.s + (a.0[3] - h.epoch) * h.ds } else { h.s };
     kani::assume(ss != 0.);
@@ -210,6 +214,49 @@ fn c07_rotated_uses_matrix() {
     for j in 0..3 {
         let x = u[0] * m(0, j) + u[1] * m(1, j) + u[2] * m(2, j);
         assert!(feq(back[0].0[j], x));
+    }
+    kani::cover!(true);
+}
+
+// The exact matrix is the documented product ROTZ*ROTY*ROTX (comment above rotation_matrix),
+// for ANY interpretation of sin/cos: with S-UF-SMALL all entries are small integers, so the
+// comparison is exact. Catches a wrong sign or a missing/extra second-order term.
+// @harness c07_exact_matrix_is_product prop=C07 tier=quick btree=no cap=900 stubs="S-UF-SMALL(f64::sin_cos)" bound="r in (D-SMALL minus 0)^3, exact mode, both conventions: matrix == ROTZ*ROTY*ROTX (coordinate frame) resp. its transpose, sin/cos uninterpreted with values in {-3..3}"
+#[kani::proof]
+#[kani::stub(f64::sin_cos, uf_sin_cos_small)]
+#[kani::unwind(6)]
+fn c07_exact_matrix_is_product() {
+    let r = small3();
+    // generic angles only: sin(0) = 0 would mask, in a native replay, a term that the
+    // uninterpreted sin/cos exposes
+    kani::assume(r[0] != 0. && r[1] != 0. && r[2] != 0.);
+    // under Kani these calls hit the same stub as the ones inside rotation_matrix; in a native
+    // replay both are the real sin_cos, and the comparison below holds to rounding
+    let (sx, cx) = r[0].sin_cos();
+    let (sy, cy) = r[1].sin_cos();
+    let (sz, cz) = r[2].sin_cos();
+    let rz = [[cz, sz, 0.], [-sz, cz, 0.], [0., 0., 1.]];
+    let ry = [[cy, 0., -sy], [0., 1., 0.], [sy, 0., cy]];
+    let rx = [[1., 0., 0.], [0., cx, sx], [0., -sx, cx]];
+    let mut zy = [[0f64; 3]; 3];
+    let mut p = [[0f64; 3]; 3];
+    for i in 0..3 {
+        for j in 0..3 {
+            zy[i][j] = rz[i][0] * ry[0][j] + rz[i][1] * ry[1][j] + rz[i][2] * ry[2][j];
+        }
+    }
+    for i in 0..3 {
+        for j in 0..3 {
+            p[i][j] = zy[i][0] * rx[0][j] + zy[i][1] * rx[1][j] + zy[i][2] * rx[2][j];
+        }
+    }
+    let cf = rotation_matrix(&r, true, false);
+    let pv = rotation_matrix(&r, true, true);
+    for i in 0..3 {
+        for j in 0..3 {
+            assert!((cf[i][j] - p[i][j]).abs() <= 1e-9);
+            assert!((pv[j][i] - p[i][j]).abs() <= 1e-9);
+        }
     }
     kani::cover!(true);
 }
